@@ -10,7 +10,9 @@ RULE = ("for every (n, connectivity, LC class): k members constructed with indep
         "Cliffords, generator bases and signs (quick k=3 for n<=5 and k=1 for n=6; thorough k=8 / 4), each sent through "
         "get_preparation_circuit, get_readout_circuit and (as a graph-state circuit + local gates) "
         "compress_preparation_circuit; additionally every graph on n <= 5 vertices (and drawn six-vertex graphs) presented literally in "
-        "graph form (Graph object or canonical generator strings), whatever its edge count. A case is one returned circuit. Non-trivial = class cost >= 1 and the member differs "
+        "graph form (Graph object or canonical generator strings), whatever its edge count; and, per configuration, input circuits that "
+        "leave part of the register untouched (all Bell pairs, GHZ stars/chains, pairs of Bell pairs, 4-qubit lines on a subset, drawn "
+        "sub-circuits on k < n qubits; entangling gates between arbitrary qubits). A case is one returned circuit. Non-trivial = class cost >= 1 and the member differs "
         "from the table's representative by a local layer or basis change; distinct by (n, connectivity, canonical group, API). "
         "Oracle: own two-qubit counter (swap = 3) and ASAP two-qubit depth on the returned instruction list, compared with "
         "stabilizer_circuit_lookup(n, connectivity, id).cost/.depth where id is the table line whose graph lies in the "
@@ -151,7 +153,29 @@ def shard_named(arg):
     return rep
 
 
+def shard_idle(arg):
+    """input circuits that leave part of the register untouched: cost and depth of what comes back are still those of the class,
+    however the idle qubits are (not) written"""
+    n, name, seed, quick = arg
+    from gen import sparsecirc
+    rep = fw.Report()
+    for i, (label, circ) in enumerate(sparsecirc.sparse_circuits(n, seed, "c04idle", quick)):
+        gens = members.group_of_circuit(n, [(o[0], tuple(o[1])) for o in circ])
+        case = {"n": n, "connectivity": name, "strings": sweep.strings(gens, n), "format": "strings+sign", "circuit": circ}
+        fails, results = check_member(case)
+        canon = pauli.canonical_group(gens, n)
+        for res in results:
+            api, c, d = res[:3]
+            rep.case((n, name, canon, api, "idle") if c >= 1 else None, dict(case, api=api, twoq=c, depth=d) if (i == 7 and api == "compress") else None)
+            rep.count("circuits_per_api", api + "(input with idle qubits)")
+        for key, msg, extra in fails:
+            rep.fail(key, case, msg + f" [input circuit {label} leaves qubits untouched]", **extra)
+    return rep
+
+
 def shard_any(arg):
+    if arg[0] == "idle":
+        return shard_idle(arg[1:])
     if arg[0] == "named":
         return shard_named(arg[1:])
     if arg[0] == "graphs":
@@ -178,7 +202,10 @@ def run(ctx):
         k = (3 if n <= 5 else 1) if q else (20 if n <= 5 else 10)
         for chunk in fw.split(reps, {2: 1, 3: 1, 4: 2, 5: 12, 6: 96}[n]):
             args.append((n, chunk, k, ctx.seed, ctx.deadline))
-    args.sort(key=lambda a: -(a[1] if a[0] in ("graphs", "named") else a[0]))
+    for (n, name) in coupling.CONFIGS:
+        if n >= 3:
+            args.append(("idle", n, name, ctx.seed, q))
+    args.sort(key=lambda a: -(a[1] if a[0] in ("graphs", "named", "idle") else a[0]))
     rep = fw.run_shards(ctx, "props.c04", "shard_any", args)
     rep.extra["exhaustive"] = False
     rep.extra["exhaustive_part"] = "every (configuration, class) pair is visited with at least one member in every run; members are sampled"
